@@ -86,6 +86,22 @@ func (w *wallet) spend(u Utxo) *wire.TxIn {
 
 // randScript returns (script, keyIndex, legacy). keyIndex -1 = foreign script.
 func (w *wallet) randScript() ([]byte, int, bool) {
+	if w.rng.Intn(16) == 0 {
+		// Foreign script that does not parse (a push announcing more bytes
+		// than follow) or is nonsense: BIP158 still commits to it (only
+		// empty and OP_RETURN scripts are left out of a basic filter).
+		s := make([]byte, 3+w.rng.Intn(9))
+		w.rng.Read(s)
+		switch w.rng.Intn(3) {
+		case 0:
+			s[0] = txscript.OP_DATA_32
+		case 1:
+			s[0] = txscript.OP_PUSHDATA2
+		default:
+			s[0] = txscript.OP_IF
+		}
+		return s, -1, false
+	}
 	switch w.rng.Intn(10) {
 	case 0, 1: // foreign P2WPKH
 		s := make([]byte, 22)
